@@ -24,7 +24,9 @@ type cfgPath struct {
 	Blocks []*ssa.BasicBlock
 	Atoms  map[string]bool         // atom name -> value assumed on this path
 	Order  []string                // atoms in the order they were assumed (with polarity prefix)
-	Ret    map[*ssa.Call]ssa.Value // results of inlined calls (single-result callees) on this path
+	Ret    map[ssa.Value]ssa.Value // results of inlined calls on this path (the call for one result, its extracts for several)
+	// Bind: what the parameters of the helpers spliced into this path stand for (the argument, resolved on the path)
+	Bind map[ssa.Value]ssa.Value
 }
 
 func (p *cfgPath) Has(name string, val bool) bool {
@@ -45,11 +47,62 @@ func (p *cfgPath) HasMatching(pred func(name string, val bool) bool) bool {
 // PhiValue resolves a phi along the path (the edge taken into its block).
 func (p *cfgPath) Resolve(v ssa.Value) ssa.Value {
 	for i := 0; i < 10; i++ {
-		if c, ok := v.(*ssa.Call); ok && p.Ret != nil {
-			if rv, bound := p.Ret[c]; bound {
+		if _, ok := v.(*ssa.Call); ok && p.Ret != nil {
+			if rv, bound := p.Ret[v]; bound {
 				v = rv
 				continue
 			}
+		}
+		if _, ok := v.(*ssa.Extract); ok && p.Ret != nil {
+			if rv, bound := p.Ret[v]; bound {
+				v = rv
+				continue
+			}
+		}
+		// the same through a local variable that holds the struct (res := helper(); … res.f …)
+		if u, ok := v.(*ssa.UnOp); ok && u.Op == token.MUL && p.Ret != nil {
+			if fa, ok := u.X.(*ssa.FieldAddr); ok {
+				if al, ok := fa.X.(*ssa.Alloc); ok {
+					if st := singleStoreLoose(al); st != nil && onlyFieldReads(al) {
+						base := p.Resolve(st.Val)
+						if base != st.Val {
+							if bu, ok := base.(*ssa.UnOp); ok && bu.Op == token.MUL {
+								if lit, ok := bu.X.(*ssa.Alloc); ok && onlyFieldStores(lit) {
+									if val, ok := localFieldStore(base, fa.Field, 0); ok {
+										v = val
+										continue
+									}
+									return zeroConst(u.Type())
+								}
+							}
+							if k, ok := base.(*ssa.Const); ok && k.Value == nil {
+								return zeroConst(u.Type())
+							}
+						}
+					}
+				}
+			}
+		}
+		// a field of the struct a spliced helper returned: what the helper stored there on this path
+		if fl, ok := v.(*ssa.Field); ok && p.Ret != nil {
+			base := p.Resolve(fl.X)
+			if base != fl.X {
+				if u, ok := base.(*ssa.UnOp); ok && u.Op == token.MUL {
+					if al, ok := u.X.(*ssa.Alloc); ok && onlyFieldStores(al) {
+						if val, ok := localFieldStore(base, fl.Field, 0); ok {
+							v = val
+							continue
+						}
+						if z := zeroConst(fl.Type()); z != nil {
+							return z
+						}
+					}
+				}
+				if k, ok := base.(*ssa.Const); ok && k.Value == nil {
+					return zeroConst(fl.Type())
+				}
+			}
+			return v
 		}
 		ph, ok := v.(*ssa.Phi)
 		if !ok {
@@ -226,13 +279,58 @@ func (pe *pathExplorer) inlinable(c *ssa.Call) *ssa.Function {
 		return nil
 	}
 	g := staticCallee(c.Common())
-	if g == nil || g == pe.fn || pe.Atomic[g] || g.Pkg != pe.fn.Pkg || g.Blocks == nil || len(g.Blocks) > 14 || hasLoop(g) || g.Signature.Results().Len() > 1 {
+	if g == nil || g == pe.fn || pe.Atomic[g] || g.Pkg != pe.fn.Pkg || g.Blocks == nil || len(g.Blocks) > 14 || hasLoop(g) || g.Signature.Results().Len() > 3 {
 		return nil
 	}
 	if g.Object() != nil && g.Object().Exported() {
 		return nil // API functions are anchors of their own
 	}
+	if g.Signature.Results().Len() > 1 && !pureClassifier(g) {
+		return nil // several results: only helpers that merely classify their arguments
+	}
 	return g
+}
+
+// pureClassifier: g writes nothing but its own locals and calls nothing of the repository (it computes its
+// results from its arguments: a verdict and what goes with it).
+func pureClassifier(g *ssa.Function) bool {
+	localAddr := func(a ssa.Value) bool {
+		for i := 0; i < 6; i++ {
+			switch x := a.(type) {
+			case *ssa.Alloc:
+				return true
+			case *ssa.FieldAddr:
+				a = x.X
+				continue
+			case *ssa.IndexAddr:
+				a = x.X
+				continue
+			}
+			break
+		}
+		return false
+	}
+	for _, b := range g.Blocks {
+		for _, in := range b.Instrs {
+			switch x := in.(type) {
+			case *ssa.Store:
+				if !localAddr(x.Addr) {
+					return false
+				}
+			case *ssa.MapUpdate, *ssa.Send, *ssa.Go, *ssa.Defer:
+				return false
+			case *ssa.Call:
+				if _, isBuiltin := x.Common().Value.(*ssa.Builtin); isBuiltin {
+					continue
+				}
+				f := staticCallee(x.Common())
+				if f == nil || (f.Pkg != nil && strings.HasPrefix(f.Pkg.Pkg.Path(), modulePath)) {
+					return false
+				}
+			}
+		}
+	}
+	return true
 }
 
 // Funcs: the explored function and the helpers whose paths were spliced into it.
@@ -248,7 +346,8 @@ type pathState struct {
 	blocks []*ssa.BasicBlock
 	atoms  map[string]bool
 	order  []string
-	ret    map[*ssa.Call]ssa.Value
+	ret    map[ssa.Value]ssa.Value
+	bind   map[ssa.Value]ssa.Value
 }
 
 func (st pathState) withAtom(name string, val bool) pathState {
@@ -261,7 +360,7 @@ func (st pathState) withAtom(name string, val bool) pathState {
 	if !val {
 		pfx = "-"
 	}
-	return pathState{st.blocks, na, append(append([]string{}, st.order...), pfx+name), st.ret}
+	return pathState{st.blocks, na, append(append([]string{}, st.order...), pfx+name), st.ret, st.bind}
 }
 
 // spliceCall returns the states after following every feasible path of the helper called by c.
@@ -309,7 +408,19 @@ func (pe *pathExplorer) spliceCall(c *ssa.Call, g *ssa.Function, st pathState) [
 		if !isRet {
 			continue // the helper panics: the caller's path ends there (panics are inventoried by other rules)
 		}
-		ns := pathState{append(append([]*ssa.BasicBlock{}, st.blocks...), sp.Blocks...), st.atoms, st.order, st.ret}
+		nb := map[ssa.Value]ssa.Value{}
+		for k, v := range st.bind {
+			nb[k] = v
+		}
+		for k, v := range sp.Bind {
+			nb[k] = v
+		}
+		for i, prm := range g.Params {
+			if i < len(c.Common().Args) {
+				nb[prm] = (&cfgPath{Blocks: st.blocks, Ret: st.ret}).Resolve(c.Common().Args[i])
+			}
+		}
+		ns := pathState{append(append([]*ssa.BasicBlock{}, st.blocks...), sp.Blocks...), st.atoms, st.order, st.ret, nb}
 		feasible := true
 		for _, o := range sp.Order {
 			val := o[0] == '+'
@@ -343,7 +454,7 @@ func (pe *pathExplorer) spliceCall(c *ssa.Call, g *ssa.Function, st pathState) [
 		if !feasible {
 			continue
 		}
-		nr := map[*ssa.Call]ssa.Value{}
+		nr := map[ssa.Value]ssa.Value{}
 		for k, v := range st.ret {
 			nr[k] = v
 		}
@@ -367,6 +478,14 @@ func (pe *pathExplorer) spliceCall(c *ssa.Call, g *ssa.Function, st pathState) [
 					}
 				}
 				pe.valBind[rv] = bind
+			}
+		}
+		if len(retInstr.Results) > 1 {
+			// several results: each extract of the call stands for the corresponding returned value
+			for _, ref := range *c.Referrers() {
+				if ex, ok := ref.(*ssa.Extract); ok && ex.Index < len(retInstr.Results) {
+					nr[ex] = sp.Resolve(retInstr.Results[ex.Index])
+				}
 			}
 		}
 		ns.ret = nr
@@ -420,7 +539,7 @@ func (pe *pathExplorer) Paths() []*cfgPath {
 		blocks, atoms, order := st.blocks, st.atoms, st.order
 		switch last := b.Instrs[len(b.Instrs)-1].(type) {
 		case *ssa.Return, *ssa.Panic:
-			out = append(out, &cfgPath{Blocks: blocks, Atoms: atoms, Order: order, Ret: st.ret})
+			out = append(out, &cfgPath{Blocks: blocks, Atoms: atoms, Order: order, Ret: st.ret, Bind: st.bind})
 		case *ssa.Jump:
 			if !b.Succs[0].Dominates(b) {
 				walk(b.Succs[0], st)
@@ -433,6 +552,19 @@ func (pe *pathExplorer) Paths() []*cfgPath {
 				// a constant phi condition is resolved by the path
 				cp := &cfgPath{Blocks: blocks, Ret: st.ret}
 				cond := cp.Resolve(last.Cond)
+				// a comparison of two values that the path resolves to integer constants (the verdict of a spliced classifier)
+				if bo, ok := cond.(*ssa.BinOp); ok && (bo.Op == token.EQL || bo.Op == token.NEQ) {
+					if ka, ok := constInt(cp.Resolve(bo.X)); ok {
+						if kb, ok := constInt(cp.Resolve(bo.Y)); ok {
+							if _, direct := bo.X.(*ssa.Const); !direct {
+								if ((ka == kb) == (bo.Op == token.EQL)) == (k == 0) {
+									walk(s, st)
+								}
+								continue
+							}
+						}
+					}
+				}
 				if bv, ok := constBool(cond); ok {
 					if bv == (k == 0) {
 						walk(s, st)
@@ -591,4 +723,31 @@ func (p *cfgPath) indexOf(b *ssa.BasicBlock, upTo int) int {
 func isNilConst(v ssa.Value) bool {
 	c, ok := v.(*ssa.Const)
 	return ok && c.Value == nil
+}
+
+// onlyFieldStores: the local struct is written only field by field, each field at most once (a composite literal).
+func onlyFieldStores(al *ssa.Alloc) bool {
+	seen := map[int]bool{}
+	for _, ref := range *al.Referrers() {
+		switch x := ref.(type) {
+		case *ssa.FieldAddr:
+			for _, r2 := range *x.Referrers() {
+				st, ok := r2.(*ssa.Store)
+				if !ok || st.Addr != ssa.Value(x) {
+					if _, dbg := r2.(*ssa.DebugRef); dbg {
+						continue
+					}
+					return false
+				}
+				if seen[x.Field] {
+					return false
+				}
+				seen[x.Field] = true
+			}
+		case *ssa.UnOp, *ssa.DebugRef:
+		default:
+			return false
+		}
+	}
+	return true
 }
